@@ -80,7 +80,7 @@ Section Undo.
   Fixpoint cells_of (c : N) (n : nat) : list N :=
     match n with O => [] | S k => c :: cells_of (c + 1) k end.
   Definition reopen_written (keys : list key) : list N :=
-    flat_map (fun k => cells_of (k_fsblk k * B / T)
+    flat_map (fun k => cells_of ((k_fsblk k * B + off) / T)     (* cell of the key.  The model indexes the map by device cell c; the repaired code stores c - off / T (file system position) both when saving and when reopening: the same set up to that shift, every cell touched being >= off / T *)
                                 (N.to_nat ((N.of_nat (length (k_data k)) + T - 1) / T))) keys.
 
   Definition ustep (s : ust) (o : uop) : ust :=
